@@ -1,11 +1,8 @@
-import VirVerif.Drv.Proto
-import VirVerif.Drv.C10
+import VirVerif.Drv.All
 open VirVerif.Drv
 
-def handlers : List Handler := [handleC10]
-
 def dispatch (st : St) (toks : List String) : String :=
-  match handlers.findSome? (fun h => h st toks) with
+  match allHandlers.findSome? (fun h => h st toks) with
   | some r => r
   | none => "ERR unknown-op"
 
